@@ -3,12 +3,15 @@ package main
 import (
 	"bytes"
 	"fmt"
+	"github.com/0xReLogic/Helios/internal/zzverif/wire"
+	"io"
 	"net"
 	"os"
 	"os/exec"
 	"path/filepath"
 	"regexp"
 	"strings"
+	"sync"
 	"testing"
 	"time"
 
@@ -624,6 +627,233 @@ func TestVerifC18(t *testing.T) {
 		c18Boundaries(t, r, dir)
 	}
 	c18Binary(t, r, dir)
+	if shard == 3%shardsOfC18() {
+		c18Magnitudes(t, r, dir)
+	}
+	if shard == 4%shardsOfC18() {
+		c18Addresses(t, r, dir)
+	}
+}
+
+// c18Addresses: the ways an operator may write the address of one and the same backend (a
+// real server on a loopback port), right and wrong: with and without scheme, other schemes,
+// scheme in capitals, missing slashes, trailing slash and path, surrounding blanks, no host, a
+// bad port. Each file goes through the real LoadConfig and, if accepted, is started like main()
+// does behind a real listener; then one request is sent. The statement allows: the file is
+// refused (or start-up fails) with an error, or the proxy works - the request reaches that
+// server and its answer comes back. A proxy that starts and cannot reach the backend it was
+// given is half-configured.
+func c18Addresses(t *testing.T, r *vres.Report, dir string) {
+	start := time.Now()
+	be := wire.NewBackend("addr")
+	defer be.Close()
+	hp := be.Addr() // 127.0.0.1:port
+	port := hp[strings.LastIndex(hp, ":")+1:]
+	spellings := []string{
+		"http://" + hp, "http://" + hp + "/", "HTTP://" + hp, "Http://" + hp, "http://localhost:" + port, "http://LOCALHOST:" + port,
+		hp, "localhost:" + port, "//" + hp, "http:/" + hp, "http:" + hp, "http//" + hp, "://" + hp, "tcp://" + hp, "ftp://" + hp, "ws://" + hp, "h2c://" + hp,
+		" http://" + hp, "http://" + hp + " ", "http://", "http:///", "http://:" + port, "http://" + hp + ":1", "http://127.0.0.1:port", "http://127.0.0.1:99999", "http://[" + hp + "]",
+		"http://user@" + hp, "http://" + hp + "?x=1", "http://" + hp + "#frag", "unix:///tmp/sock", "127.0.0.1", "localhost",
+	}
+	// the form the README and the shipped files use: http://host:port (with or without the slash)
+	documented := map[string]bool{"http://" + hp: true, "http://" + hp + "/": true, "http://localhost:" + port: true}
+	var evals int64
+	var outs vres.Outcomes
+	for _, a := range spellings {
+		evals++
+		y := fmt.Sprintf("server:\n  port: 8080\nbackends:\n  - name: base1\n    address: %q\n", a)
+		cfg, err := c18Load(dir, "addr.yaml", y)
+		if err != nil {
+			outs.Add("refused")
+			if documented[a] {
+				r.Violate("C18/valid-configuration-rejected/backend-address", fmt.Sprintf("backend address %q is written the way the documentation and the shipped files write it, but the file is refused: %v", a, err), 5, map[string]interface{}{"yaml": y})
+			}
+			continue
+		}
+		before := be.HitCount()
+		outcome, what := func() (o, w string) {
+			defer func() {
+				if p := recover(); p != nil {
+					o, w = "panic", fmt.Sprintf("start-up panics: %v", p)
+				}
+			}()
+			h, err := startHelios(cfg)
+			if err != nil {
+				return "start-up error", ""
+			}
+			defer h.stop()
+			c, err := wire.Dial(h.addr)
+			if err != nil {
+				return "tool", "dial: " + err.Error()
+			}
+			defer c.Close()
+			resp := c.Do(&wire.Request{Method: "GET", Target: "/", Header: []wire.HeaderLine{{"Host", "helios.test"}, {"Connection", "close"}}}, 15*time.Second)
+			if resp.Err == "" && resp.Status == 200 && be.HitCount() == before+1 {
+				return "works", ""
+			}
+			return "half-configured", fmt.Sprintf("the proxy starts, and a request is answered %d %s (the backend at %s received %d request(s))", resp.Status, resp.Err, hp, be.HitCount()-before)
+		}()
+		outs.Add(outcome)
+		if documented[a] && outcome != "works" {
+			r.Violate("C18/valid-configuration-rejected/backend-address", fmt.Sprintf("backend address %q is written the way the documentation and the shipped files write it, but: %s %s", a, outcome, what), 5, map[string]interface{}{"yaml": y})
+			continue
+		}
+		switch outcome {
+		case "tool":
+			t.Fatal(what)
+		case "panic":
+			r.Violate("C18/accepted-configuration-panics/backend-address", fmt.Sprintf("backend address %q is accepted by LoadConfig; %s", a, what), 5, map[string]interface{}{"yaml": y})
+		case "half-configured":
+			r.Violate("C18/accepted-configuration-starts-half-configured/backend-address", fmt.Sprintf("backend address %q (for the server at %s) is accepted by LoadConfig; %s", a, hp, what), 5, map[string]interface{}{"yaml": y})
+		}
+	}
+	r.AddScenario(vres.Scenario{Name: "backend-address-spellings", Engine: "W", Evaluations: evals, Distinct: int64(outs.N()), Outcomes: outs.N(),
+		Rule:  "one evaluation = one file whose only backend address is one spelling (right or wrong) of a real server's address, loaded with the real LoadConfig and, if accepted, started like main() does and sent one request; allowed: refused / start-up error / the request reaches that server; distinct = outcome classes",
+		Bound: fmt.Sprintf("%d spellings (with and without scheme, other schemes, capitals, missing slashes, blanks, no host, bad port, userinfo, query, fragment)", len(spellings)), Exhaustive: true,
+		Extra: map[string]interface{}{"wall_s": time.Since(start).Seconds()}})
+}
+
+// c18Magnitudes: the numeric fields that have no documented upper limit, with values of large
+// magnitude: around 2^31, 2^53, the largest number of seconds a time.Duration can hold
+// (9223372036) and the first that overflows it, and the largest 64-bit integer. The statement
+// allows two outcomes for a file: it is refused with a clear error, or the process it starts is
+// a working proxy. Each file the real LoadConfig accepts is therefore given to the real binary,
+// which must answer on the proxy port and still be running shortly after, or end with a
+// non-zero status and an error message - not with a Go panic trace, and not hang.
+func c18Magnitudes(t *testing.T, r *vres.Report, dir string) {
+	bin := os.Getenv("VERIF_HELIOS_BIN")
+	if bin == "" {
+		return
+	}
+	start := time.Now()
+	repo := os.Getenv("VERIF_REPO")
+	if repo == "" {
+		repo = "/repo"
+	}
+	values := []int{1<<31 - 1, 1 << 31, 9223372036, 9223372037, 1<<63 - 1}
+	if vres.Thorough() {
+		values = append(values, 1<<32, 1<<53, 1<<53+1, 9223372035, 9223372038, 1<<62, 1<<63-2)
+	}
+	type job struct {
+		f c18Field
+		v int
+	}
+	var jobs []job
+	for _, f := range c18NumericFields() {
+		if f.hi != 0 {
+			continue
+		}
+		for _, v := range values {
+			jobs = append(jobs, job{f, v})
+		}
+	}
+	type verdict struct{ outcome, key, what, yaml string }
+	res := make([]verdict, len(jobs))
+	var wg sync.WaitGroup
+	sem := make(chan struct{}, 8)
+	for i, j := range jobs {
+		i, j := i, j
+		wg.Add(1)
+		sem <- struct{}{}
+		go func() {
+			defer wg.Done()
+			defer func() { <-sem }()
+			pp := freePort()
+			y, err := mergeYAML(strings.Replace(c18Base, "port: 8080", fmt.Sprintf("port: %d", pp), 1), fmt.Sprintf(j.f.tmpl, j.v))
+			if err != nil {
+				res[i] = verdict{outcome: "tool", what: err.Error()}
+				return
+			}
+			path := filepath.Join(dir, fmt.Sprintf("mag-%d.yaml", i))
+			os.WriteFile(path, []byte(y), 0o644)
+			if _, err := config.LoadConfig(path); err != nil {
+				res[i] = verdict{outcome: "refused"}
+				return
+			}
+			cmd := exec.Command(bin, "-config", path)
+			cmd.Dir = repo
+			var out bytes.Buffer
+			cmd.Stdout, cmd.Stderr = &out, &out
+			if err := cmd.Start(); err != nil {
+				res[i] = verdict{outcome: "tool", what: err.Error()}
+				return
+			}
+			done := make(chan error, 1)
+			go func() { done <- cmd.Wait() }()
+			status := ""
+			deadline := time.Now().Add(20 * time.Second)
+			for time.Now().Before(deadline) && status == "" {
+				select {
+				case err := <-done:
+					status = fmt.Sprintf("exited: %v", err)
+				case <-time.After(30 * time.Millisecond):
+					c, err := net.DialTimeout("tcp", fmt.Sprintf("127.0.0.1:%d", pp), 300*time.Millisecond)
+					if err != nil {
+						continue
+					}
+					fmt.Fprintf(c, "GET / HTTP/1.1\r\nHost: x\r\nConnection: close\r\n\r\n")
+					c.SetReadDeadline(time.Now().Add(15 * time.Second))
+					buf := make([]byte, 12)
+					if n, _ := io.ReadFull(c, buf); n >= 12 && strings.HasPrefix(string(buf), "HTTP/1.1 ") {
+						status = "answered " + string(buf[9:12])
+					} else {
+						status = "accepted the connection but gave no HTTP answer"
+					}
+					c.Close()
+				}
+			}
+			if strings.HasPrefix(status, "answered") {
+				// a working proxy is still there a moment later
+				select {
+				case err := <-done:
+					status = fmt.Sprintf("answered once, then exited: %v", err)
+				case <-time.After(400 * time.Millisecond):
+				}
+			}
+			if !strings.Contains(status, "exited") {
+				cmd.Process.Kill()
+				<-done
+			}
+			o := out.String()
+			desc := fmt.Sprintf("%s = %d is accepted by LoadConfig; the real binary", j.f.name, j.v)
+			switch {
+			case strings.Contains(o, "panic:") || strings.Contains(o, "goroutine "):
+				res[i] = verdict{"crashed", "C18/accepted-configuration-crashes-the-process/" + j.f.name, fmt.Sprintf("%s %s with a Go panic: %s", desc, status, firstPanic(o)), y}
+			case strings.HasPrefix(status, "answered") && !strings.Contains(status, "exited"):
+				res[i] = verdict{outcome: "works"}
+			case strings.HasPrefix(status, "exited: exit status"):
+				res[i] = verdict{outcome: "start-up error"}
+			default:
+				if status == "" {
+					status = "neither answered nor exited within 20 s"
+				}
+				res[i] = verdict{"broken", "C18/accepted-configuration-neither-works-nor-fails/" + j.f.name, fmt.Sprintf("%s: %s; output: %s", desc, status, lastLines(o, 3)), y}
+			}
+		}()
+	}
+	wg.Wait()
+	var outs vres.Outcomes
+	for i, v := range res {
+		outs.Add(jobs[i].f.name + "/" + v.outcome)
+		if v.outcome == "tool" {
+			t.Fatal(v.what)
+		}
+		if v.key != "" {
+			r.Violate(v.key, v.what, 5, map[string]interface{}{"yaml": v.yaml})
+		}
+	}
+	r.AddScenario(vres.Scenario{Name: "large-magnitudes", Engine: "P", Evaluations: int64(len(jobs)), Distinct: int64(outs.N()), Outcomes: outs.N(),
+		Rule:  "one evaluation = one file (minimal valid base + one numeric field without a documented upper limit at a large value) loaded with the real LoadConfig and, if accepted, started with the real binary: it must answer on the proxy port and keep running, or exit non-zero without a panic trace; distinct = (field, refused / works / start-up error / crashed / broken) classes",
+		Bound: fmt.Sprintf("%d numeric fields x %d magnitudes (2^31-1, 2^31, 9223372036 = the most seconds a Duration holds, 9223372037, 2^63-1%s)", len(jobs)/len(values), len(values), map[bool]string{true: ", 2^32, 2^53, 2^53+1, 9223372035, 9223372038, 2^62, 2^63-2"}[vres.Thorough()]), Exhaustive: true,
+		Extra: map[string]interface{}{"wall_s": time.Since(start).Seconds()}})
+}
+
+// firstPanic cuts the output down to the panic message.
+func firstPanic(o string) string {
+	if i := strings.Index(o, "panic:"); i >= 0 {
+		o = o[i:]
+	}
+	return strings.TrimSpace(strings.SplitN(o, "\n", 2)[0])
 }
 
 func shardsOfC18() int {
@@ -685,20 +915,15 @@ func c18PluginNumbers(t *testing.T, r *vres.Report, dir string) {
 		Extra: map[string]interface{}{"wall_s": time.Since(start).Seconds()}})
 }
 
-// c18Boundaries: every documented numeric constraint at its edges, one field at a time over an
-// otherwise valid file: the last invalid value, the first valid one, its neighbour, and for
-// bounded ranges the last valid value and the first invalid one above it.
-func c18Boundaries(t *testing.T, r *vres.Report, dir string) {
-	start := time.Now()
-	var evals int64
-	var outs vres.Outcomes
-	type field struct {
-		name string
-		tmpl string // YAML fragment with one %d
-		lo   int    // smallest valid value
-		hi   int    // largest valid value (0 = unbounded)
-	}
-	fields := []field{
+type c18Field struct {
+	name string
+	tmpl string // YAML fragment with one %d
+	lo   int    // smallest valid value
+	hi   int    // largest valid value (0 = unbounded)
+}
+
+func c18NumericFields() []c18Field {
+	fields := []c18Field{
 		{"server.port", "server:\n  port: %d\n", 1, 65535},
 		{"metrics.port", "metrics:\n  enabled: true\n  port: %d\n  path: /metrics\n", 1, 65535},
 		{"admin_api.port", "admin_api:\n  enabled: true\n  port: %d\n", 1, 65535},
@@ -720,8 +945,19 @@ func c18Boundaries(t *testing.T, r *vres.Report, dir string) {
 		{"circuit_breaker.max_requests", "circuit_breaker:\n  enabled: true\n  failure_threshold: 1\n  success_threshold: 1\n  timeout_seconds: 5\n  interval_seconds: 5\n  max_requests: %d\n", 0, 0},
 	}
 	for _, tn := range []string{"read", "write", "idle", "handler", "shutdown", "backend_dial", "backend_read", "backend_idle"} {
-		fields = append(fields, field{"server.timeouts." + tn, "server:\n  timeouts:\n    " + tn + ": %d\n", 0, 0})
+		fields = append(fields, c18Field{"server.timeouts." + tn, "server:\n  timeouts:\n    " + tn + ": %d\n", 0, 0})
 	}
+	return fields
+}
+
+// c18Boundaries: every documented numeric constraint at its edges, one field at a time over an
+// otherwise valid file: the last invalid value, the first valid one, its neighbour, and for
+// bounded ranges the last valid value and the first invalid one above it.
+func c18Boundaries(t *testing.T, r *vres.Report, dir string) {
+	start := time.Now()
+	var evals int64
+	var outs vres.Outcomes
+	fields := c18NumericFields()
 	for _, f := range fields {
 		vals := map[int]bool{f.lo - 1: false, f.lo: true, f.lo + 1: true}
 		if f.hi > 0 {
